@@ -46,6 +46,9 @@ func tagText(tag []byte, part byte, n int) string {
 	return hex.EncodeToString(tagBytes(tag, part, (n+1)/2))[:n]
 }
 
+// genRetries counts discarded generation attempts (mkRich runs in client goroutines too).
+var genRetries atomic.Int64
+
 // richRequest is one generated request: the octets the client sends and an
 // independent decode of them (from a private copy nobody else touches).
 type richRequest struct {
@@ -276,13 +279,13 @@ func mkRich(r *Rng, cid, seq, budget int, strict bool, force uint16) *richReques
 		}
 		wire, err := m.Pack()
 		if err != nil || len(wire) > budget+64 {
-			stat["retain_gen_retry"]++
+			genRetries.Add(1)
 			continue
 		}
 		if rq := richFromWire(wire, kinds); rq != nil {
 			return rq
 		}
-		stat["retain_gen_retry"]++
+		genRetries.Add(1)
 	}
 	// fallback: a plain tagged question (always packs)
 	m := new(dns.Msg)
@@ -296,7 +299,7 @@ func mkRich(r *Rng, cid, seq, budget int, strict bool, force uint16) *richReques
 // ref itself is never handed to the library again).
 func richFromWire(wire []byte, kinds []string) *richRequest {
 	rq := richFromAnyWire(wire, kinds)
-	if rq == nil || len(rq.ref.Question) != 1 {
+	if rq == nil || len(rq.ref.Question) != 1 || len(rq.reply) > 4000 { // replies must fit the clients' 4096-octet buffers
 		return nil
 	}
 	return rq
@@ -310,7 +313,7 @@ func richFromAnyWire(wire []byte, kinds []string) *richRequest {
 		return nil
 	}
 	reply, err := echoReply(ref2).Pack()
-	if err != nil || len(reply) > 4000 {
+	if err != nil || len(reply) > 65000 {
 		return nil
 	}
 	return &richRequest{wire: wire, ref: ref, reply: reply, kinds: kinds}
